@@ -292,19 +292,17 @@ func main() {
 			pprof.StartCPUProfile(f)
 			defer pprof.StopCPUProfile()
 		}
-		maxLen := c.Pick(3, 4)
-		var ops []op
-		for f := range functions {
-			for t := range tickers {
-				for cl := 0; cl < 2; cl++ {
-					for p := range prefixes {
-						ops = append(ops, op{f, t, cl, p})
-					}
-				}
-			}
+		// pass (a): histories of <=3 issues over the full alphabet (2 callers);
+		// pass (b), thorough: histories of <=4 issues by one caller (with the stub hasher the
+		// caller only ends up in the owner field, it does not influence the identifier).
+		type pass struct{ maxLen, callers int }
+		passes := []pass{{3, 2}}
+		c.Bound = "history length <= 3 (2 callers, 108 ops/step)"
+		if !c.Quick() {
+			passes = append(passes, pass{4, 1})
+			c.Bound += "; history length <= 4 (1 caller, 54 ops/step)"
 		}
-		c.Rule = fmt.Sprintf("all sequences of <=%d issue transactions on the real ESDT contract, each from functions %v x tickers %v x 2 callers x first-3-hash-bytes {000000,000001,00000f,7fffff,fffffe,ffffff} (stub hasher), committed iff Ok; every prefix of a sequence is judged. non-trivial = an issue whose first candidate identifier already existed (retry loop taken)", maxLen, functions, tickers)
-		c.Bound = fmt.Sprintf("history length <= %d (%d operations per step)", maxLen, len(ops))
+		c.Rule = fmt.Sprintf("all sequences of issue transactions on the real ESDT contract (committed iff Ok), each from functions %v x tickers %v x callers x first-3-hash-bytes {000000,000001,00000f,7fffff,fffffe,ffffff} (stub hasher): (a) length <=3 with 2 callers; thorough adds (b) length <=4 with 1 caller and (c) the ffffff witness with the production blake2b hasher; every prefix of a sequence is judged. non-trivial = an issue whose first candidate identifier already existed (retry loop taken)", functions, tickers)
 		c.Assumptions = []string{
 			"call value == base issuing cost, enough gas, valid token name, no optional properties (argument validation is not the subject)",
 			"registerMetaESDT is not a function of this contract version",
@@ -351,49 +349,62 @@ func main() {
 		}
 		put := func(in *inst) { poolMu.Lock(); pool = append(pool, in); poolMu.Unlock() }
 
-		var dfs func(in *inst, seq []op, depth int)
-		dfs = func(in *inst, seq []op, depth int) {
-			for _, o := range ops {
-				s := append(seq, o)
-				res, u := in.doOp(c, o)
-				c.Eval(1)
-				report(c, s, res)
-				if depth+1 < maxLen && !c.Expired() {
-					dfs(in, s, depth+1)
+		for _, ps := range passes {
+			maxLen := ps.maxLen
+			var ops []op
+			for f := range functions {
+				for t := range tickers {
+					for cl := 0; cl < ps.callers; cl++ {
+						for p := range prefixes {
+							ops = append(ops, op{f, t, cl, p})
+						}
+					}
 				}
-				in.revert(u)
 			}
-		}
-		n := len(ops)
-		mc.Par(n*n, func(i int) {
-			if c.Expired() {
-				c.Cap("deadline")
-				return
-			}
-			a, b := ops[i/n], ops[i%n]
-			in := get()
-			defer put(in)
-			if len(in.world) != 0 || len(in.issued) != 0 {
-				c.Fatal("world not reverted")
-			}
-			r1, u1 := in.doOp(c, a)
-			if i%n == 0 {
-				c.Eval(1)
-				report(c, []op{a}, r1)
-			}
-			if maxLen >= 2 {
-				seq := []op{a, b}
-				r2, u2 := in.doOp(c, b)
-				c.Eval(1)
-				report(c, seq, r2)
-				if maxLen >= 3 {
-					dfs(in, seq, 2)
+			var dfs func(in *inst, seq []op, depth int)
+			dfs = func(in *inst, seq []op, depth int) {
+				for _, o := range ops {
+					s := append(seq, o)
+					res, u := in.doOp(c, o)
+					c.Eval(1)
+					report(c, s, res)
+					if depth+1 < maxLen && !c.Expired() {
+						dfs(in, s, depth+1)
+					}
+					in.revert(u)
 				}
-				in.revert(u2)
 			}
-			in.revert(u1)
-		})
+			n := len(ops)
+			mc.Par(n*n, func(i int) {
+				if c.Expired() {
+					c.Cap("deadline")
+					return
+				}
+				a, b := ops[i/n], ops[i%n]
+				in := get()
+				defer put(in)
+				if len(in.world) != 0 || len(in.issued) != 0 {
+					c.Fatal("world not reverted")
+				}
+				r1, u1 := in.doOp(c, a)
+				if i%n == 0 {
+					c.Eval(1)
+					report(c, []op{a}, r1)
+				}
+				if maxLen >= 2 {
+					seq := []op{a, b}
+					r2, u2 := in.doOp(c, b)
+					c.Eval(1)
+					report(c, seq, r2)
+					if maxLen >= 3 {
+						dfs(in, seq, 2)
+					}
+					in.revert(u2)
+				}
+				in.revert(u1)
+			})
 
+		}
 		if !c.Quick() {
 			realHasherWitness(c)
 		}
